@@ -44,6 +44,11 @@ def cfg_pass(pool, tier, seed):
     d = {'exhaustive_nmax': nmax, 'closed_exhaustive': sum(r['closed'] for r in res), 'nontrivial_exhaustive': sum(r['nontrivial'] for r in res),
          'random': sum(r['closed'] for r in res2), 'nontrivial_random': sum(r['nontrivial'] for r in res2),
          'fails': [], 'samples': [], 'wall': 0, 'random_sizes': sorted({t[0] for t in rnd}), 'cached': False}
+    cc = {}
+    for r in list(res) + list(res2):
+        for k, v in r.get('call_counts', {}).items():
+            cc[k] = cc.get(k, 0) + v
+    d['call_counts'] = cc
     for r in list(res) + list(res2):
         d['fails'] += r['fails']
         if r['samples'] and len(d['samples']) < 4:
@@ -107,6 +112,9 @@ def cfg_property(explanation, extra_assumptions=(), level='other'):
         cov['bounded_pass_wall_s'] = d['wall']
         cov['bounded_pass_cached'] = d['cached']
         cov['known_findings'] = known
+        cov['internal_call_contract_evaluations'] = d.get('call_counts', {})
+        if prop == 'C14' and not d.get('call_counts', {}).get('SCFG.insert_block'):
+            verdict.errors.append('the run-time contract wrapper of SCFG.insert_block was never evaluated (bypassed?)')
         return level, cov, list(extra_assumptions) + e1['assumptions']
     return run
 
